@@ -624,13 +624,18 @@ def rule_write_fresh(chk):
     mw = ctx.func("_message", "Message.write")
     lm_ = ctx.func("_action", "log_message")
     names = set()
+    bad = []
+    n_splats = 0
     for n in iter_own_nodes(mw.node):
         if isinstance(n, ast.Call) and any(k.arg is None for k in n.keywords) and (lm_ in ctx.targets(mw, n) or (isinstance(n.func, ast.Attribute) and n.func.attr == "log")):
             for k in n.keywords:
-                if k.arg is None and isinstance(k.value, ast.Name):
-                    names.add(k.value.id)
-    chk.need(names, "Message.write: the **fields splat into log_message / action.log not found")
-    bad = []
+                if k.arg is None:
+                    n_splats += 1
+                    if isinstance(k.value, ast.Name):
+                        names.add(k.value.id)
+                    elif not common._fresh_container(k.value):
+                        bad.append("**%s" % unparse(k.value))
+    chk.need(n_splats, "Message.write: the **fields splat into log_message / action.log not found")
     for nm in sorted(names):
         vals = assigned_values(mw, nm)
         for v in vals:
